@@ -33,9 +33,63 @@ def setup():
     engine.install_dykstra_logger()
 
 
+def make_x0proj_cfg(rng):
+    """Directed at 'an infeasible x0 is replaced by its projection before the first evaluation': geometries on which Dykstra needs
+    many sweeps (a half-space cutting off the corner of a box; two balls with a thin lens; a wedge), far from the origin (||x||
+    up to 1e3), x0 far outside, user tolerance and sweep cap from the documented parameters, tiny budget (the first evaluation is
+    what matters)."""
+    r = rng.random
+    n = int(rng.integers(2, 4))
+    off = float(10.0 ** rng.uniform(0, 3)) * rng.choice([-1.0, 1.0], size=n) if r() < 0.7 else np.zeros(n)
+    L = float(10.0 ** rng.uniform(0, 3))
+    kind = gen.pick(rng, ["corner", "corner", "lens", "wedge"])
+    cfg = dict(prob=gen.gen_problem(rng, kinds=("linear", "sinlin"), n=n, m=n + 1), user_params={}, lower=None, upper=None)
+    if kind == "corner":
+        lo, hi = off, off + L
+        a = np.ones(n) / np.sqrt(n)
+        bcut = float(a @ hi - 0.25 * L * (0.5 + r()))       # keeps the part of the box next to the corner 'hi' out
+        sets = [dict(type="half", a=a.tolist(), b=bcut)]
+        if r() < 0.5:
+            cfg["lower"], cfg["upper"] = lo.tolist(), hi.tolist()
+        else:
+            sets.append(dict(type="box", l=lo.tolist(), u=hi.tolist()))
+        z = lo + 0.3 * L
+        x0 = hi + L * (0.5 + 4 * rng.random(n)) * np.where(rng.random(n) < 0.8, 1.0, -3.0)
+    elif kind == "lens":
+        d = rng.normal(size=n); d /= np.linalg.norm(d)
+        R = L
+        gap = R * float(10.0 ** rng.uniform(-2, -0.5))
+        c1, c2 = off - d * (R - gap), off + d * (R - gap)
+        sets = [dict(type="ball", c=c1.tolist(), r=R), dict(type="ball", c=c2.tolist(), r=R)]
+        z = off
+        perp = rng.normal(size=n); perp -= (perp @ d) * d; perp /= np.linalg.norm(perp)
+        x0 = off + perp * R * (1.5 + 3 * r()) + d * R * rng.normal() * 0.3
+    else:
+        u, v = np.linalg.qr(rng.normal(size=(n, n)))[0][:, :2].T
+        phi = float(10.0 ** rng.uniform(-1.5, -0.3))
+        sets = []
+        for sgn in (1.0, -1.0):
+            a = sgn * np.cos(phi) * v - np.sin(phi) * u
+            sets.append(dict(type="half", a=a.tolist(), b=float(a @ off)))
+        sets.append(dict(type="ball", c=(off + u * L).tolist(), r=1.5 * L))
+        z = off + u * L * 0.8
+        x0 = off - u * L * (1 + 3 * r()) + v * L * rng.normal()
+    margin = 0.05 * L
+    cfg["proj"] = sets
+    cfg["x0"] = x0.tolist()
+    cfg["args"] = dict(rhobeg=float(margin), rhoend=float(margin * 1e-3), maxfun=n + 3)
+    up = cfg["user_params"]
+    up["dykstra.d_tol"] = float(gen.pick(rng, [1e-8, 1e-10, 1e-12, 1e-14]))
+    up["dykstra.max_iters"] = int(gen.pick(rng, [100, 1000, 5000]))
+    cfg["_variant"] = "x0proj/" + kind
+    return cfg
+
+
 def make_cfg(seed, i):
     rng = engine.rng_for(seed, NUM, i)
     r = rng.random
+    if i % 4 == 3:
+        return make_x0proj_cfg(rng)
     spec = gen.gen_problem(rng, kinds=("linear", "sinlin", "rosen", "exp"), nmax=3, mmax=5)
     n = spec["n"]
     margin = float(10.0 ** rng.uniform(-1.3, 0))
@@ -73,6 +127,28 @@ def make_cfg(seed, i):
         x0 = xb + dvec * float(10.0 ** rng.uniform(-9, -3)) * max(1.0, float(np.linalg.norm(xb)))
     else:
         x0 = z + margin * rng.normal(size=n) * float(10.0 ** rng.uniform(0, 1.5))
+    if r() < 0.3:
+        # move the whole problem next to the origin: with |x0_j| below rhobeg the differences (y - xbase) are no longer exact, so
+        # "xbase + (y - xbase)" is not bit-identical to the projection output y (any place that re-assembles a point instead of
+        # evaluating the routine's output shows here, nowhere else)
+        xp = np.array(x0, dtype=float)
+        for _ in range(300):
+            for q in P:
+                xp = q(xp)
+        # (the point solve() will start from - x0 projected - lands within a fraction of rhobeg of the origin, coordinate by coordinate)
+        t = -xp + 0.3 * margin * rng.normal(size=n) * (10.0 ** rng.uniform(-2, -0.3, size=n))
+        for p in sets:
+            if p["type"] == "ball":
+                p["c"] = (np.array(p["c"]) + t).tolist()
+            elif p["type"] == "half":
+                p["b"] = float(p["b"] + np.array(p["a"]) @ t)
+            else:
+                p["l"] = (np.array(p["l"]) + t).tolist(); p["u"] = (np.array(p["u"]) + t).tolist()
+        if cfg["lower"] is not None:
+            cfg["lower"] = (np.array(cfg["lower"]) + t).tolist()
+        if cfg["upper"] is not None:
+            cfg["upper"] = (np.array(cfg["upper"]) + t).tolist()
+        x0 = x0 + t
     cfg["x0"] = x0.tolist()
     cfg["args"] = dict(rhobeg=float(0.3 * margin), rhoend=float(0.3 * margin * 10.0 ** rng.integers(-6, -2)),
                        maxfun=int(gen.pick(rng, [12, 20, 30])))
@@ -122,7 +198,11 @@ def run_case(case):
             counts["kept"] += 1
             rec = dict(mod=info["mod"], line=info["line"], p=info["p"], tol=info["tol"], max_iter=info["max_iter"],
                        sweeps=info["sweeps"], out=np.array(info["out"], copy=True), P=info["P"])
-            outputs[rec["out"].tobytes()] = rec
+            rec["calls_before"] = len(ctx.calls)          # evaluations completed when this output was produced
+            key = rec["out"].tobytes()
+            if key in outputs:
+                rec["calls_before"] = min(rec["calls_before"], outputs[key]["calls_before"])   # keep the earliest time it was produced
+            outputs[key] = rec
             if info["mod"] == "dfols.solver":
                 solver_calls.append(rec)
             if info["mod"] == "dfols.model":
@@ -147,6 +227,11 @@ def run_case(case):
         k = call["k"]
         st["evaluations_checked"] = st.get("evaluations_checked", 0) + 1
         rec = outputs.get(x.tobytes())
+        if rec is not None and rec["calls_before"] >= k:
+            # causality: the routine produced these bits only AFTER the point had been evaluated (e.g. a later re-projection of the
+            # stored point), so the evaluated point was not taken from the routine
+            st["outputs_seen_only_after_the_evaluation"] = st.get("outputs_seen_only_after_the_evaluation", 0) + 1
+            rec = None
         if k == 1:
             # an infeasible x0 is replaced by its projection before the first evaluation
             if not solver_calls:
